@@ -50,6 +50,12 @@ pub fn pulse() {
     SLOTS[t].tick.fetch_add(1, Ordering::Relaxed);
 }
 
+/// Ids of the case the calling thread is running (used by the fault handler).
+pub fn current_ids() -> (u64, u64) {
+    let t = WID.with(|w| w.get());
+    (SLOTS[t].a.load(Ordering::Relaxed), SLOTS[t].b.load(Ordering::Relaxed))
+}
+
 pub fn clear(t: usize) {
     SLOTS[t.min(MAX_WORKERS - 1)].active.store(false, Ordering::Relaxed);
 }
